@@ -1376,6 +1376,7 @@ fn main() {
     }
     let mut shape_files = 0u64;
     let mut built_files = 0u64;
+    let mut regrouped_files = 0u64;
     let mut x_identical = 0u64;
     let mut x_different = 0u64;
 
@@ -1424,6 +1425,23 @@ fn main() {
                     }
                 }
                 Err(e) => fail(&mut out, &mut st, &format!("build(path) / Trie::open(path) fails: {}", e), case),
+            }
+        }
+        // the file depends on the entry *map* only: the same per-key insert sequences, keys visited in another order
+        // (all entries of a key together, keys descending) give the same bytes
+        {
+            let mut by_key: BTreeMap<Vec<u16>, Vec<Ent>> = BTreeMap::new();
+            for e in &case.ents {
+                by_key.entry(e.key.clone()).or_default().push(e.clone());
+            }
+            let regrouped = Case { info: case.info.clone(), ents: by_key.into_values().rev().flatten().collect() };
+            let moved = regrouped.ents.iter().zip(case.ents.iter()).filter(|(a, b)| a.key != b.key).count();
+            if moved > 0 {
+                regrouped_files += 1;
+                match build(&regrouped) {
+                    Ok(b2) if b2 == bytes => {}
+                    _ => fail(&mut out, &mut st, "the same entries inserted key by key in another key order give different bytes", case),
+                }
             }
         }
         check_reader(&mut out, &mut st, &mut rng, case, &bytes, "TrieBuilder::write", true);
@@ -1480,6 +1498,7 @@ fn main() {
     out.stat("max_data_begin", st.max_data_begin);
     out.stat("extreme_shape_files", shape_files);
     out.stat("files_via_build_path_and_open_path", built_files);
+    out.stat("files_rebuilt_with_keys_in_another_order", regrouped_files);
     out.stat("first_n_lookups", st.first_n);
     out.stat("first_n_lookups_shorter_than_all", st.first_n_cut);
     out.stat("first_phrase_lookups", st.first_phrase);
